@@ -6,7 +6,7 @@ class C37(Prop):
     check_mod = "C37"
     drivers = [dict(pkg="internal/logger", test="TestVerifC37")]
     n_quick = 700          # messages; each is logged to two destinations (two cases)
-    n_thorough = 30000
+    n_thorough = 15000
     shard = 150
     ready = True
     manifest = dict(
